@@ -159,7 +159,7 @@ def saoStore (e : Env) (s : State) (m : StoreMsg) : TxM State := do
       | some a => pure a
       | none => throw "payment address not set" : TxM Addr)
   if s.bal payer < amount then throw "insufficient coin"
-  let s ← s.send payer e.modOrder amount
+  let s ← s.sendLit payer e.modOrder amount
   let order := { order with amount := amount }
   let (order, s) := newOrder s order (sps.map (·.creator))
   let s := if isProvider then setTimeoutOrderBlock s order.id (addU64 order.createdAt order.timeout) else s
@@ -178,29 +178,34 @@ def saoStore (e : Env) (s : State) (m : StoreMsg) : TxM State := do
       status := MetaNew, orders := [] }
     softTx' (newMeta s order md)
 
-def saoReady (s : State) (creator msgProvider : Addr) (orderId : Nat) : TxM State := do
-  let some o := s.getOrder orderId | throw "order not found"
-  let ip := (o.provider = creator && msgProvider = creator) ||
+/-- who may hand a pending order to providers: its gateway itself, or one of the gateway's addresses -/
+def readyAllowed (s : State) (creator msgProvider : Addr) (o : Order) : Bool :=
+  (o.provider = creator && msgProvider = creator) ||
     (o.provider = msgProvider &&
       (match s.getNode msgProvider with
        | some n => n.txAddresses.contains creator
        | none => false))
-  if !ip then throw "invalid provider"
+
+def saoReadyBody (s : State) (o : Order) : TxM State := do
   if o.status ≠ OrderPending then throw "expect pending order"
   let (s, sps) ← getSps s o o.dataId
   let (o, s) := generateShards s o (sps.map (·.creator))
   let s := s.setOrder o
   pure (setTimeoutOrderBlock s o.id (addU64 (toU64 s.h) o.timeout))
 
+def saoReady (s : State) (creator msgProvider : Addr) (orderId : Nat) : TxM State :=
+  match s.getOrder orderId with
+  | none => throw "order not found"
+  | some o => if !readyAllowed s creator msgProvider o then throw "invalid provider" else saoReadyBody s o
+
 def increaseReputation (e : Env) (s : State) (a : Addr) (v : Int) : State :=
   match s.getNode a with
   | none => s
   | some n => s.setNode e { n with reputation := f32round (n.reputation + f32round v) }
 
-def saoComplete (e : Env) (s : State) (creator msgProvider : Addr) (orderId size : Nat) (cidOk : Bool) (cid : StrId) : TxM State := do
+def saoCompleteBody (e : Env) (s : State) (msgProvider : Addr) (orderId size : Nat) (cidOk : Bool) (cid : StrId) : TxM State := do
   if size = 0 then throw "invalid shard size"
   let some order := s.getOrder orderId | throw "order not found"
-  if !actsFor s creator msgProvider then throw "invalid provider"
   let some shard := getOrderShardBySP s order msgProvider | throw "not the order shard provider"
   if shard.status = ShardCompleted then throw "already completed"
   if shard.status ≠ ShardWaiting ∧ shard.status ≠ ShardMigrating then throw "invalid shard status"
@@ -261,17 +266,17 @@ def saoComplete (e : Env) (s : State) (creator msgProvider : Addr) (orderId size
   let s := increaseReputation e s msgProvider amt
   pure (s.setOrder order)
 
-def saoCancel (e : Env) (s : State) (creator msgProvider : Addr) (orderId : Nat) : TxM State := do
-  let some order := s.getOrder orderId | throw "order not found"
-  -- only the order's own gateway may be the claimed provider (the `fix:` of F10)
-  let isCreator := order.creator = creator ||
+/-- who may cancel: the order's creator, or a sender claiming the order's own gateway when the
+    order was created by one of that gateway's addresses (the `fix:` of F10) -/
+def cancelAllowed (s : State) (creator msgProvider : Addr) (order : Order) : Bool :=
+  order.creator = creator ||
     (msgProvider = order.provider &&
       (match s.getNode msgProvider with
        | some n => n.txAddresses.contains order.creator
        | none => false))
-  if !isCreator then throw "only order creator allowed"
+
+def saoCancelBody (e : Env) (s : State) (order : Order) (orderId : Nat) : TxM State := do
   if order.status = OrderCompleted then throw "order already completed"
-  if !actsFor s creator msgProvider then throw "invalid provider"
   let rec loop (l : List Nat) (s : State) : TxM State :=
     match l with
     | [] => pure s
@@ -281,6 +286,19 @@ def saoCancel (e : Env) (s : State) (creator msgProvider : Addr) (orderId : Nat)
       loop t (s.removeShard id)
   let s ← loop order.shards s
   softTx (cancelOrder e s orderId)
+
+def saoCancel (e : Env) (s : State) (creator msgProvider : Addr) (orderId : Nat) : TxM State :=
+  match s.getOrder orderId with
+  | none => throw "order not found"
+  | some order =>
+    if !cancelAllowed s creator msgProvider order then throw "only order creator allowed"
+    else if !actsFor s creator msgProvider then throw "invalid provider"
+    else saoCancelBody e s order orderId
+
+/-- (all failures of a message are the same observable: the order of the checks is immaterial) -/
+def saoComplete (e : Env) (s : State) (creator msgProvider : Addr) (orderId size : Nat) (cidOk : Bool) (cid : StrId) : TxM State :=
+  if !actsFor s creator msgProvider then throw "invalid provider"
+  else saoCompleteBody e s msgProvider orderId size cidOk cid
 
 def saoTerminate (e : Env) (s : State) (creator msgProvider : Addr) (owner : Did) (dataId : Bytes) (sigValid : Bool) (sigDid : Did) : TxM State := do
   let _ := owner
@@ -313,7 +331,7 @@ def renewShard (e : Env) (s : State) (sh : Shard) (newOrderId duration : Nat) (u
       let s := if bal ≥ extra then
           (match s.send sh.sp e.modNode extra with | .ok s' => s' | .error _ => s)
         else
-          let s1 := (match s.send sh.sp e.modNode bal with | .ok s' => s' | .error _ => s)
+          let s1 := (match s.sendLit sh.sp e.modNode bal with | .ok s' => s' | .error _ => s)
           let debt := extra - bal
           s1.setDebt sh.sp (match s1.getDebt sh.sp with | some d => d + debt | none => debt)
       let some pl := s.getPledge sh.sp | throw "coin denom mismatch"
@@ -429,7 +447,8 @@ def handleTimeoutOrder (e : Env) (s : State) (orderId : Nat) : TxM State := do
   if order.status = OrderPending then
     let (s, _) ← cancelOrder e s orderId
     return s
-  if addU64 (toU64 s.h) order.timeout ≥ addU64 order.createdAt order.duration then return s
+  -- no lifetime left for another interval: last examination (the `fix:` of F15)
+  let lastChance : Bool := addU64 (toU64 s.h) order.timeout ≥ addU64 order.createdAt order.duration
   let shs := order.shards.filterMap (fun id => (s.getShard id).map (fun sh => (id, sh)))
   let timeoutShards := (shs.filter (fun x => x.2.status = ShardWaiting)).map (·.2)
   let completed := (shs.filter (fun x => x.2.status = ShardCompleted)).map (·.1)
@@ -440,9 +459,9 @@ def handleTimeoutOrder (e : Env) (s : State) (orderId : Nat) : TxM State := do
     let s := uncompleted.foldl (fun s id => s.removeShard id) s
     if uncompleted.length ≠ 0 then return s.setOrder { order with shards := completed }
     return s
-  let (s, randSp) ← randomSP s timeoutCount sps (toI64 order.size)
+  let (s, randSp) ← (if lastChance then pure (s, []) else randomSP s timeoutCount sps (toI64 order.size) : TxM (State × List Node))
   if randSp.length = 0 then
-    if subU64 (toU64 s.h) order.createdAt > (MaxTries * order.timeout) % U64 then
+    if lastChance ∨ subU64 (toU64 s.h) order.createdAt > (MaxTries * order.timeout) % U64 then
       if order.status ≠ OrderCompleted then
         let s := order.shards.foldl (fun s id => s.removeShard id) s
         let (s, _) ← cancelOrder e s orderId
